@@ -17,4 +17,44 @@ CONTRACTS = {
         ensures=["all(k in values or k in " + SPEC + ".bound or k in _ret_find_bypassed_inputs for k in " + SPEC + ".required)"],
         modifies=[],
     ),
+    RV + "_check_cycle_entry": dict(
+        props=["C08"],
+        params={"node_names": SEQ(STR), "entrypoints": DICT(STR, SEQ(STR)), "provided": SET(STR), "bypassed": SET(STR)},
+        returns=NONE_T,
+        # a cycle none of whose entry points is satisfied is rejected, and that is the ONLY reason for MissingInputError;
+        # ValueError (ambiguity) needs at least two satisfied entry points
+        raises={"MissingInputError": "not any(entry_satisfied(entrypoints, n, provided, bypassed) for n in node_names)"},
+        may_raise={"ValueError": "any(entry_satisfied(entrypoints, n, provided, bypassed) for n in node_names)",
+                   "KeyError": "not all(n in entrypoints for n in node_names)"},   # a listed name that is no entry point (callers never pass one)
+        modifies=[],
+        loops=[{"invariant": ["(len(satisfied) == 0) == (not any(entry_satisfied(entrypoints, node_names[j], provided, bypassed) for j in range(_i)))",
+                              "all(x in entrypoints for x in satisfied)"], "modifies": ["satisfied"]},
+               {"invariant": [], "modifies": ["lines"]},
+               {"invariant": [], "modifies": ["lines"]}],
+    ),
+    RV + "_find_scc_for_node": dict(
+        props=["C08"],
+        params={"node_name": STR, "scc_groups": DICT(INT, SEQ(STR))},
+        returns=OPT(INT),
+        raises={},
+        # the index of A group that lists the node, None exactly when no group does
+        ensures=["result is not None or not any(node_name in scc_groups[g] for g in scc_groups)",
+                 "result is None or (result in scc_groups and node_name in scc_groups[result])"],
+        modifies=[],
+        loops=[{"invariant": ["not any(node_name in kv[1] for kv in _seq[:_i])"]}],
+    ),
+    RV + "_validate_cycle_entry": dict(
+        props=["C08"],
+        params={"graph": OBJ("Graph"), "provided": SET(STR), "bypassed": SET(STR), "entrypoint": OPT(STR), "inputs_spec": OBJ("InputSpec")},
+        returns=NONE_T,
+        may_raise={"Exception": True},
+        call_site="opaque",   # the second postcondition speaks about the grouping computed inside (ghost)
+        # validation passes only when (a) an explicit entry point is a real entry point whose cycle parameters are all
+        # provided or bypassed, and (b) every cycle group checked has a satisfied entry point
+        ensures=["entrypoint is None or (entrypoint in inputs_spec.entrypoints and entry_satisfied(inputs_spec.entrypoints, entrypoint, provided, bypassed))",
+                 "entrypoint is not None or all(any(entry_satisfied(inputs_spec.entrypoints, n, provided, bypassed) for n in _ret_group_entrypoints_by_scc[g]) for g in _ret_group_entrypoints_by_scc)"],
+        modifies=[],
+        loops=[{"invariant": []},
+               {"invariant": ["all(any(entry_satisfied(inputs_spec.entrypoints, n, provided, bypassed) for n in grp) for grp in _seq[:_i])"]}],
+    ),
 }
